@@ -7,6 +7,7 @@ import (
 	"bufio"
 	"bytes"
 	"crypto/sha1"
+	"crypto/sha256"
 	"encoding/hex"
 	"encoding/json"
 	"fmt"
@@ -18,6 +19,7 @@ import (
 	"sort"
 	"strconv"
 	"strings"
+	"sync/atomic"
 	"syscall"
 	"time"
 
@@ -282,6 +284,22 @@ func diskLow() bool {
 		return false
 	}
 	return st.Bavail*uint64(st.Bsize) < 25<<30
+}
+
+func allInDir(errs []string, dir string) bool {
+	for _, e := range errs {
+		if !strings.HasPrefix(e, dir) {
+			return false
+		}
+	}
+	return len(errs) > 0
+}
+
+func firstOf(errs []string) string {
+	if len(errs) == 0 {
+		return ""
+	}
+	return errs[0]
 }
 
 var declRe = regexp.MustCompile(`^(?:func|type|var|const) (?:\([^)]*\) )?(P\d+)`)
@@ -742,6 +760,26 @@ func build(s *Spec, work string) (*Meta, error) {
 				continue
 			}
 			bad, unmapped := buildErrors(work, stderr)
+			if len(bad) == 0 && round <= 10 && allInDir(unmapped, filepath.Base(side.dir)+"/") {
+				// the errors sit in a shared (helper) file of the generated package: the sources built
+				// natively, so the compiler's output is at fault, for every program that needs the file
+				msg := "shared file: " + firstOf(unmapped)
+				for _, p := range s.Progs {
+					if _, d := m.Discarded[p.ID]; d {
+						continue
+					}
+					if _, r := m.Rejected[p.ID]; r {
+						continue
+					}
+					if _, u := side.rec[p.ID]; !u {
+						side.rec[p.ID] = msg
+					}
+				}
+				for _, f := range files {
+					os.Remove(f)
+				}
+				break
+			}
 			if len(bad) == 0 || round > 10 {
 				return nil, fmt.Errorf("go build of %s failed and the errors cannot be attributed to programs:\n%s\n%v", side.pkg, tail(stderr, 1500), unmapped)
 			}
@@ -868,6 +906,9 @@ func diffDirs(a, b string) []string {
 
 // ---- running the worker
 
+// ResultCacheHits counts the shards whose exploration results were reused from an identical earlier run.
+var ResultCacheHits atomic.Int64
+
 type RunOpts struct {
 	D, F, H, Cap int
 	Inject       bool
@@ -888,6 +929,36 @@ func RunWorker(b *Built, o RunOpts) ([]harness.Result, error) {
 	}
 	worker := filepath.Join(b.Dir, "worker")
 	var results []harness.Result
+	// The worker is a deterministic function of its binary (which lives in a directory named by the
+	// hash of /repo's sources, the harness and the shard's programs) and of these options: the five
+	// checks that project the same exploration differently reuse its output instead of re-running
+	// it. Anything time-dependent (watchdog verdicts) is never stored. VERIF_NO_RESULT_CACHE=1 bypasses.
+	h := sha256.Sum256([]byte(strings.Join(o.args(), " ")))
+	cacheFile := filepath.Join(b.Dir, fmt.Sprintf("results-%x.json", h[:8]))
+	if os.Getenv("VERIF_NO_RESULT_CACHE") == "" {
+		if data, err := os.ReadFile(cacheFile); err == nil && json.Unmarshal(data, &results) == nil && len(results) > 0 {
+			ResultCacheHits.Add(1)
+			return results, nil
+		}
+		results = nil
+	}
+	complete := false
+	defer func() {
+		if !complete {
+			return
+		}
+		for _, r := range results {
+			if r.Fatal != "" {
+				return
+			}
+		}
+		if len(results) > 0 {
+			if data, err := json.Marshal(results); err == nil {
+				os.WriteFile(cacheFile+".tmp", data, 0o644)
+				os.Rename(cacheFile+".tmp", cacheFile)
+			}
+		}
+	}()
 	from := 0
 	for from < len(b.Meta.Registry) {
 		args := append(o.args(), "-from", strconv.Itoa(from))
@@ -949,6 +1020,7 @@ func RunWorker(b *Built, o RunOpts) ([]harness.Result, error) {
 		results = append(results, harness.Result{ID: lastID, Fatal: kind + ": " + detail})
 		from = last + 1
 	}
+	complete = true
 	return results, nil
 }
 
